@@ -110,6 +110,12 @@ def run_one(ch, cfg):
         stages["onboard"] = A.onboard(w, dev)[0]
         if stages["onboard"] == 0:
             stages["attestation"], out = A.attestation(w, dev, ud.hex())
+            # history: the attestation is gathered again later (new user-defined value), starting from
+            # the setup certificate or from the previous attestation certificate itself
+            if stages["attestation"] == 0 and ch.draw(3, "gathered-again") == 1:
+                ud = ch.bytes(32, "ud.again")
+                src = ch.pick([A.ATT2, A.ATT1], "gathered-again.from")
+                stages["attestation-again"], out = A.attestation(w, dev, ud.hex(), cert_in=src)
         certfile = A.ATT2
     else:
         stages["attestation"], out = A.sgx_attestation(w, dev, ud.hex())
